@@ -161,6 +161,21 @@ REQUEST_BATTERY = [
 
 def battery_replay(ctx, name, role, why):
     """native confirmation through every public entry point that takes a schema: each probe violates exactly one requirement (or none)"""
+    cache = getattr(ctx, '_c11_battery', None)
+    if cache is None:
+        cache = ctx._c11_battery = {}
+    if 'bad' in cache:
+        what, replay = cache['bad']
+        return ctx.violation(name, role, f'{why}; natively: {what}', replay)
+    if cache.get('clean'):
+        return ('unreplayed', f'{why}; but the battery of single-requirement conformance probes behaves as specified on every entry point')
+    r = _battery_run(ctx, name, role, why, cache)
+    if r and r[0] == 'unreplayed':
+        cache['clean'] = True
+    return r
+
+
+def _battery_run(ctx, name, role, why, cache):
     for label, ents, want, reps in [x for x in ENTITY_BATTERY for _ in range(x[3])]:
         a = ctx.native.ask({'op': 'conformance', 'schema': SCHEMA, 'entities': ents})
         if 'entities' not in a:
@@ -169,8 +184,9 @@ def battery_replay(ctx, name, role, why):
             if ep == 'schemaless_parse':
                 return ctx.mismatch(name, f'conformance probe `{label}` does not parse without a schema: {r}')
             if (r == 'ok') != want:
-                return ctx.violation(name, role, f'{why}; natively: `{label}` is {"accepted" if r == "ok" else "rejected"} by {ep} ({r[:120]}), a datum that {"conforms" if want else "violates exactly this requirement"}',
-                                     {'op': 'conformance', 'schema': SCHEMA, 'entities': ents, 'expected_accept': want, 'entry_point': ep})
+                what = f'`{label}` is {"accepted" if r == "ok" else "rejected"} by {ep} ({r[:120]}), a datum that {"conforms" if want else "violates exactly this requirement"}'
+                cache['bad'] = (what, {'op': 'conformance', 'schema': SCHEMA, 'entities': ents, 'expected_accept': want, 'entry_point': ep})
+                return ctx.violation(name, role, f'{why}; natively: {what}', cache['bad'][1])
     for label, delta, want in REQUEST_BATTERY:
         rq = dict(REQ)
         rq.update(delta)
@@ -181,8 +197,9 @@ def battery_replay(ctx, name, role, why):
             if ep in ('schemaless_context', 'input_error'):
                 return ctx.mismatch(name, f'conformance probe `{label}`: {ep}: {r}')
             if (r == 'ok') != want:
-                return ctx.violation(name, role, f'{why}; natively: request `{label}` is {"accepted" if r == "ok" else "rejected"} by {ep} ({r[:120]})',
-                                     {'op': 'conformance', 'schema': SCHEMA, 'request': rq, 'expected_accept': want, 'entry_point': ep})
+                what = f'request `{label}` is {"accepted" if r == "ok" else "rejected"} by {ep} ({r[:120]})'
+                cache['bad'] = (what, {'op': 'conformance', 'schema': SCHEMA, 'request': rq, 'expected_accept': want, 'entry_point': ep})
+                return ctx.violation(name, role, f'{why}; natively: {what}', cache['bad'][1])
     return ('unreplayed', f'{why}; but the battery of {len(ENTITY_BATTERY) + len(REQUEST_BATTERY)} single-requirement conformance probes behaves as specified on every entry point')
 
 
